@@ -131,6 +131,20 @@ def run(tier, V):
                 pat = w[:pos] + op + w[pos:]
                 for line in [w + '\n', w[:pos] + op + w[pos:] + '\n', 'x' + w + w + '\n', w[:1] + '\n', '\n']:
                     cases.append((pat, line))
+    # every ASCII character against itself and against the byte 0x20 away from it (for a letter: its other case), alone and inside a word;
+    # the multi-byte pairs whose encodings differ in that bit only
+    for c in range(0x21, 0x7f):
+        ch = chr(c)
+        if ch in '\\.*+?[]{}()$|^':
+            continue
+        for other in {ch, chr(c ^ 0x20), ch.swapcase()}:
+            if other in '\n\x00':
+                continue
+            for pat, line in ((ch, other + '\n'), ('q' + ch, 'xQ' + other + ' q' + ch + '\n'), (ch + ch, ch + other + ch + ch + '\n'), ('\\<' + ch + 'a\\>', other + 'A ' + ch + 'a\n')):
+                cases.append((pat, line))
+    for a, b in (('é', 'É'), ('я', 'Я'), ('λ', 'Λ'), ('あ', 'ぢ'), ('ß', '\u00bf'), ('𝐀', '𝐠')):
+        for pat, line in ((a, b + '\n'), (a, 'x' + b + a + '\n'), (b, a + '\n'), (a + 'z', b + 'Z ' + a + 'Z\n')):
+            cases.append((pat, line))
     jobs = [(exe, cases[i:i + 800]) for i in range(0, len(cases), 800)]
     res = pmap(run_ones, jobs)
     nones = sum(r[0] for r in res)
@@ -141,7 +155,7 @@ def run(tier, V):
            'evaluations': tot.get('ncmp', 0) + nones * 8, 'distinct_nontrivial': tot.get('nfound', 0),
            'rule': ('ALL patterns [^][\\<] literal [\\>][$] with literal = every string of <=%d symbols over {a,B,_,-,e-acute,|,^} x ALL newline-terminated lines of <=%d symbols over '
                     '{a,b,B,_,-,space,e-acute,|,^} x icase x NOTBOL x NOTEOL, both paths compared inside the probe (found/not found, [so,eo), groups 1..2 must be written as unset); '
-                    '+ %d random longer literal/line cases and every operator character inserted at every position of three literals.  comparisons with a depth cut are discarded.  '
+                    '+ %d random longer literal/line cases and every operator character inserted at every position of three literals + every ASCII character against itself, its other case and the byte 0x20 away, and multi-byte pairs that differ in that bit.  comparisons with a depth cut are discarded.  '
                     'non-trivial = both paths found a match and offsets were compared.' % (maxlit, maxline, nones)),
            'samples': [{'pattern': '\\<a_\\>$', 'line': 'b a_\n'}, {'pattern': cases[0][0], 'line': cases[0][1]}, {'pattern': cases[-7][0], 'line': cases[-7][1]}]}
     assumptions = ['the general engine (rset_make/rset_find) is the reference for the fast path; whether a pattern took the fast path is not observable, so every pattern of the family is compared',
